@@ -407,7 +407,10 @@ fn case_result(expr: &str, st: &mut Stats, avoid: bool) -> CaseResult {
 
 fn run(ctx: &RunCtx) {
     let avoid = ctx.avoid("interp-tostring-side-effect");
-    let d1 = depth1(&all_leaves());
+    // cached: in single-case mode (coverage-guided stage) this function runs once per input
+    static D1: std::sync::OnceLock<Vec<String>> = std::sync::OnceLock::new();
+    static D2: std::sync::OnceLock<Vec<String>> = std::sync::OnceLock::new();
+    let d1 = D1.get_or_init(|| depth1(&all_leaves()));
     ctx.add_class("depth1_expressions", d1.len() as u64);
     ctx.enumerate("depth1", d1.len() as u64, |i, st| {
         if i % 4001 == 0 {
@@ -415,7 +418,7 @@ fn run(ctx: &RunCtx) {
         }
         case_result(&d1[i as usize], st, avoid)
     });
-    let d2 = depth2_reduced();
+    let d2 = D2.get_or_init(depth2_reduced);
     ctx.add_class("depth2_reduced_expressions", d2.len() as u64);
     let step = ctx.tier.pick(5u64, 1u64);
     let offset = ctx.seed % step;
